@@ -973,7 +973,11 @@ def real_rate_concrete(rp):
         kw["gamma"] = _custom_gamma
     elif rp.get("gamma") == "huge":
         kw["gamma"] = lambda *a: 1e6
-    m = mk_model(name, rp["params"], **kw)
+    m = mk_model(name, rp.get("construct_params") or rp["params"], **kw)
+    if rp.get("construct_params"):
+        # the model was built with other parameters and its attributes were assigned afterwards
+        for k, v in rp["params"].items():
+            setattr(m, k, num(v))
     ckw = {}
     if rp.get("t") is not None:
         ckw["tau"] = num(rp["t"])
@@ -1753,7 +1757,7 @@ def c16_rate(rp):
         else:
             g2 = [[[enc(num(q[0]) + f), q[1]] for q in t] for t in rp["game"]]
             p2 = rp["params"]
-        out = real_rate_concrete(dict(rp, game=g2, params=p2))
+        out = real_rate_concrete(dict(rp, game=g2, params=p2, construct_params=rp["params"] if rp.get("inplace") else None))
         for i, t in enumerate(base):
             for j, (mu, sg) in enumerate(t):
                 wm, ws = (mu * f, sg * f) if mode == "scale" else (mu + f, sg)
@@ -1788,7 +1792,11 @@ def c16_predict(rp):
     for f in ((1e-3, 0.37, 1e3) if mode == "scale" else (-11.0, 40.0)):
         if mode == "scale":
             g2 = [[[enc(num(q[0]) * f), enc(num(q[1]) * f)] for q in t] for t in rp["game"]]
-            m = model_cls(name)(beta=beta * f)
+            if rp.get("inplace"):
+                m = model_cls(name)(beta=beta)
+                m.mu, m.sigma, m.beta, m.tau = m.mu * f, m.sigma * f, m.beta * f, m.tau * f
+            else:
+                m = model_cls(name)(beta=beta * f)
         else:
             g2 = [[[enc(num(q[0]) + f), q[1]] for q in t] for t in rp["game"]]
             m = model_cls(name)(beta=beta)
